@@ -2,6 +2,7 @@
 from ..rules import proj_rules as P
 from ..rules import rep_rules as R
 from ..rules import cache_rules as CA
+from ..rules import shape_rules as SH
 from ..rules.common import u1
 
 PROJ, HYP = P.PROJ, P.HYP
@@ -24,11 +25,12 @@ ENTRIES = [
 
 
 def run(ctx):
-    P.rule_s1(ctx, ops=[(PROJ, "Transformation.apply")])
-    P.rule_p1(ctx, ops=[o for o in P.P1_OPS if "Transformation" in o[1]])
-    P.rule_roles(ctx)
-    R.rule_w1(ctx)
-    CA.rule_c2(ctx, "ProjectiveObject")
-    u1(ctx, ENTRIES, min_functions=20)
+    ctx.do(P.rule_s1, ops=[(PROJ, "Transformation.apply")])
+    ctx.do(P.rule_p1, ops=[o for o in P.P1_OPS if "Transformation" in o[1]])
+    ctx.do(P.rule_roles)
+    ctx.do(R.rule_w1)
+    ctx.do(CA.rule_c2, "ProjectiveObject")
+    ctx.do(SH.rule_sh3)
+    ctx.do(u1, ENTRIES, min_functions=20)
     ctx.r.assume("associativity, identity and inverse laws as numerical "
                  "equalities and real/complex generality are not decided")
